@@ -266,7 +266,7 @@ def _first_diff(a, b) -> str:
 def loader_case(draw):
     big = draw(st.sampled_from([False, True, False]))
     o = Opts(steps=[0, 1, 2, 3], w_launch=6, w_sync=2, max_top=3, streams=2, rank_vocab=VOCABS, ensure_kernel=True, cuda_events=True)
-    case = draw(sim_case(o, max_ranks=4, nranks_choices=[2, 3, 4, 2]))
+    case = draw(sim_case(o, max_ranks=4, nranks_choices=[2, 3, 4, 2], renumber=False))
     if big:
         # one rank with more than 127 distinct names, so that symbols of the other ranks get ids beyond a narrow dtype
         tgt = case["ranks"][draw(st.sampled_from([0, 0, -1]))]
@@ -326,12 +326,12 @@ def loader_case(draw):
 
 def campaigns(tier: str) -> List[Campaign]:
     c = Campaign("symbol_table", machine_factory, check_history, quick=400, thorough=16000, quick_shards=4,
-                 required_classes={"clone": 0.2, "combine": 0.2, "repeated_symbol": 0.3, "series": 0.2, "add_symbols_mp": 0.1},
+                 required_classes={"clone": 0.2, "combine": 0.2, "repeated_symbol": 0.22, "series": 0.17, "add_symbols_mp": 0.1},
                  stateful=True, sample_view=lambda h: h)
     c.step_count = 12
     return [c,
             Campaign("loader", loader_case(), check_loader, quick=24, thorough=480, quick_shards=8,
                      required_classes={"distinct_numberings": 0.5, "multiprocessing": 0.5, "controlled_completion_order": 0.4,
-                                       "permuted_parse_order": 0.4},
+                                       "permuted_parse_order": 0.35},
                      sample_view=lambda cs: {"configs": cs["configs"], "names_per_rank": [
                          sorted({r.name for r in complete_rows(rd["events"])})[:8] for rd in cs["ranks"]]})]
